@@ -49,6 +49,17 @@ def root_and_path(node):
     return None, ''
 
 
+def is_memoised(fi):
+    for d in getattr(fi.node, 'decorator_list', []):
+        t = d.func if isinstance(d, ast.Call) else d
+        name = t.attr if isinstance(t, ast.Attribute) else getattr(t, 'id',
+                                                                   '')
+        if name in ('lru_cache', 'cache', 'cached_property', 'memoize',
+                    'memoized'):
+            return True
+    return False
+
+
 class FuncFacts:
     def __init__(self, fi):
         self.fi = fi
@@ -132,6 +143,25 @@ def analyse_function(repo, fi):
                         m = 'alias of module-level %s%s' % (r, path)
                 if m:
                     f.alias_of_global[c.targets[0].id] = m
+
+    # results of memoising functions (functools.lru_cache / cache) are
+    # shared between calls: a local bound to such a result aliases state
+    # that outlives the call
+    for c in body_nodes:
+        if isinstance(c, ast.Assign) and len(c.targets) == 1 and \
+                isinstance(c.targets[0], ast.Name) and \
+                isinstance(c.value, ast.Call):
+            fn = c.value.func
+            res = None
+            if isinstance(fn, ast.Name):
+                res = repo.resolve_name(mi, fn.id)
+            elif isinstance(fn, ast.Attribute) and \
+                    isinstance(fn.value, ast.Name):
+                res = repo.resolve_module_attr(mi, fn.value.id, fn.attr)
+            if res and res[0] == 'func' and is_memoised(repo.funcs[res[1]]):
+                f.alias_of_global[c.targets[0].id] = \
+                    'result of the memoising function %s (shared between ' \
+                    'calls)' % res[1]
 
     def record(lineno, text, why):
         f.stores.append((lineno, text, why is not None, why or 'call-local'))
